@@ -198,15 +198,43 @@ example : ∀ i, i < 3 ↔ (Equiv.swap 0 1 : Equiv.Perm ℕ) i < 3 := by
     · subst h1; simp
     · rw [Equiv.swap_apply_of_ne_of_ne h0 h1]
 
-/-- (12) The two copies of the `nu`/`s` formulas in the source (`generate_weights`, `compute_atom_weight`)
-are the same functions, hence give the same weights. -/
+/-- (12) The two copies of the `alpha` call and of the `nu`/`s` formulas in the source (`generate_weights`,
+`compute_atom_weight`) are the same functions, hence give the same weights.  What each copy passes on to
+`_calculate_alpha` (`cutoff`) and to `_switch_func` (`order`) is generated from the call's arguments bound against the
+callee's signature, an omitted argument being the callee's generated default: dropping `order=self._order` in one copy
+makes that copy use `switchDefaultOrder` for every `self._order`, and this theorem no longer checks.
+`compute_atom_weight` is taken at the default of its `cutoff` parameter, as `compute_weights` calls it. -/
 theorem routes_formula_agree :
-    (routeCAW : Route ℝ) = routeGW ∧
+    (routeCAW cawDefaultCutoff : Route ℝ) = routeGW ∧
     ∀ (m : Mol ℝ) (order : ℕ) (p : V3 ℝ) (A : ℕ),
-      weight routeCAW m order p A = weight routeGW m order p A := by
-  have h : (routeCAW : Route ℝ) = routeGW := by
+      weight (routeCAW cawDefaultCutoff) m order p A = weight routeGW m order p A := by
+  have h : (routeCAW cawDefaultCutoff : Route ℝ) = routeGW := by
     unfold routeCAW routeGW
     congr 1
   exact ⟨h, fun m order p A => by rw [h]⟩
+
+/-- (12') The code as it is: the `cutoff` parameter of `compute_atom_weight` (documented "Cutoff for a_AB") has no
+effect — the method calls `_calculate_alpha(radii)` without it, so the clipping always uses the default of
+`_calculate_alpha`.  (Outside the wording of C06, which has no clause on `cutoff`; stated so that a change of the
+plumbing is visible.) -/
+theorem caw_cutoff_parameter_unused (c : ℝ) : (routeCAW c : Route ℝ) = routeCAW cawDefaultCutoff := by
+  unfold routeCAW alphaCAW
+  rfl
+
+/-- (12'') both copies iterate the switching polynomial exactly `self._order` times (`order = 0`: not at all;
+the default of `_switch_func` plays no role). -/
+theorem routes_pass_order (v : ℝ) (order : ℕ) :
+    (routeGW : Route ℝ).s v order = 1 / 2 * (1 - switchFunc v order) ∧
+    (routeCAW cawDefaultCutoff : Route ℝ).s v order = 1 / 2 * (1 - switchFunc v order) := by
+  constructor
+  · show sGW v order = _
+    exact sGW_real v order
+  · show sCAW v order = _
+    unfold sCAW; simp only [Nat.cast_ofNat, Nat.cast_one]
+
+example : (routeGW : Route ℝ).s (1 / 2) 1 = 5 / 32 ∧ (routeGW : Route ℝ).s (1 / 2) 0 = 1 / 4 := by
+  constructor
+  · rw [(routes_pass_order _ _).1]; simp only [switchFunc, switchStep_real]; norm_num
+  · rw [(routes_pass_order _ _).1]; simp only [switchFunc]; norm_num
 
 end GridVerif.C06
